@@ -1,5 +1,6 @@
 import CG.Proofs.C05
 import CG.Proofs.C05Conv
+import CG.Proofs.PlainNorm
 #print axioms CG.C05.edgeType_text_generated
 #print axioms CG.C05.vtype_text_generated
 #print axioms CG.C05.reserved_keys_generated
@@ -22,3 +23,11 @@ import CG.Proofs.C05Conv
 #print axioms CG.C05.tsImage_edge
 #print axioms CG.C05.tsImage_edge_inv
 #print axioms CG.C05.tsImage_node
+#print axioms CG.plainNorm_empty
+#print axioms CG.plainNorm_stepRef
+#print axioms CG.plainNorm_runRef
+#print axioms CG.plainNorm_run
+#print axioms CG.fromDict_toDict_run
+#print axioms CG.fromDict_toDict_run_cls
+#print axioms CG.fromDict_toDict_validated_run
+#print axioms CG.copy_eq_run
